@@ -30,12 +30,49 @@ def se_selector(ctx, rep):
         rep.check(ok1, "SE1", "selected-once-from-notified-state", ctx.where(b, sel[0].bb) if sel else ctx.where(b), "select(state) evaluated once on the notified state", "select evaluated %d times / on %s" % (len(sel), [term_str(a) for e in sel for a in e.args]))
         if not ok1:
             continue
+        may_s, _must_s = ctx.held_for_event(sel[0])
+        rep.check(lock not in may_s, "SE1", "select-runs-outside-the-memo-lock", ctx.where(b, sel[0].bb), "the user's selector runs before the memo lock is taken",
+                  "the user's selector runs while %s is held: a selector that panics poisons the memo and silences the subscription for good" % lock)
         selected = sel[0].result
         last = _dec(p, lambda k: k[0] == "discr" and strip_wrap(k[1]) == ("field", ("param", 1), A.f_sel_last))
         eqs = [e for e in p.calls() if e.ck in ("std::cmp::PartialEq::eq", "std::cmp::PartialEq::ne")]
         changes = [e for e in p.calls() if e.ck in ("std::ops::Fn::call", "std::ops::FnMut::call_mut") and strip_wrap(e.args[0]) == ("field", ("param", 1), A.f_sel_on_change)]
         stores = [e for e in p.events if e.kind == "store" and strip_wrap(e.target) == ("field", ("param", 1), A.f_sel_last)]
         if last is None:
+            # `last.as_ref() == Some(&selected)`: one comparison of the whole Option - true means
+            # "a value was delivered before and equals the new one", false covers first and changed
+            from mirq.interp import unwrap_all as _uw
+            oeq = [e for e in eqs if len(e.args) == 2]
+            good_o = False
+            if len(oeq) == 1:
+                a0, a1 = (strip_clone(strip_wrap(_uw(x))) for x in oeq[0].args)
+                lastopt = ("field", ("param", 1), A.f_sel_last)
+                some_sel = lambda t: t[0] == "agg" and t[1].endswith("Option::Some") and len(t[2]) == 1 and strip_clone(strip_wrap(_uw(t[2][0]))) == selected
+                good_o = (a0 == lastopt and some_sel(a1)) or (a1 == lastopt and some_sel(a0))
+                v = _dec(p, lambda k: k == oeq[0].result)
+            if good_o and v is not None:
+                is_eq = (v.lstrip("*") not in ("0", "false")) != oeq[0].ck.endswith("::ne")
+                for e in oeq + changes:
+                    may, must = ctx.held_for_event(e)
+                    rep.check(lock in must, "SE3", "atomic-compare-deliver-store:%s" % e.ck.split("::")[-1], ctx.where(b, e.bb), "runs with %s held" % lock, "runs without %s: two notifications can interleave between compare and store" % lock)
+                for e in stores:
+                    may, must = lr.held_at(e.bb, e.idx)
+                    rep.check(lock in must, "SE3", "atomic-compare-deliver-store:store", ctx.where(b, e.bb, e.idx), "store under %s" % lock, "store without %s" % lock)
+                if is_eq:
+                    classes.add("equal")
+                    rep.check(not changes and not stores, "SE2", "silent-when-equal", ctx.where(b), "equal: no callback, stored value unchanged", "equal: %d on_change call(s), %d store(s)" % (len(changes), len(stores)))
+                else:
+                    classes.update(("first", "changed"))
+                    good = len(changes) == 1 and len(stores) == 1
+                    if good:
+                        arg = changes[0].args[1]
+                        good = arg[0] == "agg" and arg[1] == "tuple" and len(arg[2]) == 2 and arg[2][0] == ("clone", selected) and arg[2][1] == ("clone", ("param", 3))
+                        sv = stores[0].value
+                        good = good and sv[0] == "agg" and sv[1].endswith("Option::Some") and sv[2][0] == selected
+                    for cls_ in ("first", "changed"):
+                        rep.check(good, "SE2", "deliver-and-remember:%s" % cls_, ctx.where(b, changes[0].bb) if changes else ctx.where(b),
+                                  "%s: on_change(selected, action) once, then last_value := Some(selected)" % cls_, "%s: %d on_change call(s), %d store(s)" % (cls_, len(changes), len(stores)))
+                continue
             rep.bad("SE2", "last-value-not-tested", ctx.where(b), "path [%s] does not test whether a value was delivered before" % p.describe())
             continue
         first = last.lstrip("*") == "None"
@@ -77,6 +114,8 @@ def se_selector(ctx, rep):
         for e in stores:
             may, must = lr.held_at(e.bb, e.idx)
             rep.check(lock in must, "SE3", "atomic-compare-deliver-store:store", ctx.where(b, e.bb, e.idx), "store under %s" % lock, "store without %s" % lock)
+    reads = [x for x in ctx.prog.sites(b) if x.ck in ("std::sync::RwLock::read", "std::sync::RwLock::try_read")]
+    rep.check(not reads, "SE3", "exclusive-lock-only", reads[0].where if reads else ctx.where(b), "the remembered value is only ever locked exclusively", "the remembered value is read under a shared lock: two notifications can both decide `changed`")
     for c in ("first", "changed", "equal"):
         rep.check(c in classes, "SE2", "class-present:%s" % c, ctx.where(b), "path class `%s` exists" % c, "no path for class `%s`" % c)
     # SE4: initial None, registered as a direct subscriber with nothing else done to it
@@ -107,7 +146,7 @@ def se5_last_value_single_writer(ctx, rep):
         bp = ctx.prog.bp(b)
         touched = []
         for s in ctx.prog.sites(b):
-            if s.ck.startswith("std::sync::Mutex::") and s.term["args"]:
+            if (s.ck.startswith("std::sync::Mutex::") or s.ck.startswith("std::sync::RwLock::")) and s.term["args"]:
                 t = strip_wrap(bp.arg_term(s.bb, 0))
                 if t[0] == "field" and t[2] == A.f_sel_last:
                     touched.append(s)
@@ -413,13 +452,14 @@ def ch_channeled_release(ctx, rep):
                 rep.check(good, "R2", "disconnect-then-join:" + short(b.path), joins[0].site.where if joins else ctx.where(b), "sender slot emptied and dropped, then the subscriber thread is joined", "release path [%s]: sender dropped first=%s, joins=%d" % (p.describe(), bool(dropped) and bool(joins) and p.events.index(dropped[0]) < p.events.index(joins[0]), len(joins)))
             else:
                 rep.check(not joins, "R2", "second-release-does-nothing:" + short(b.path), ctx.where(b), "handle already taken: no join (idempotent)", "join without handle")
-        # reached from on_unsubscribe and Subscription::unsubscribe of the wrapper
-        for tr, m in (("Subscriber", "on_unsubscribe"), ("Subscription", "unsubscribe")):
-            try:
-                e = A.method(A.name_of(A.channeled_adt), m, tr)
-                rep.check(js.body.path in ctx.sync_reach([e]), "R2", "release-reached-from:%s" % m, ctx.where(e), "%s releases the channel and joins" % m, "%s does not reach the release" % m)
-            except AnchorMissing as ex:
-                rep.anchor_missing("R2", ex.what)
+    # reached from on_unsubscribe and Subscription::unsubscribe of the wrapper
+    for tr, m in (("Subscriber", "on_unsubscribe"), ("Subscription", "unsubscribe")):
+        try:
+            e = A.method(A.name_of(A.channeled_adt), m, tr)
+            reach_e = ctx.sync_reach([e])
+            rep.check(any(js.body.path in reach_e for js in cr_sites), "R2", "release-reached-from:%s" % m, ctx.where(e), "%s releases the channel and joins" % m, "%s does not reach the release" % m)
+        except AnchorMissing as ex:
+            rep.anchor_missing("R2", ex.what)
 
 
 def _flat(ctx, body, t, depth=0):
